@@ -74,6 +74,8 @@ die() {
   case "$DIE" in
     exit1) exit 1;; exit77) exit 77;; exit139) exit 139;; exit255) exit 255;;
     segv) kill -SEGV $$; sleep 1; exit 139;; kill) kill -KILL $$; sleep 1; exit 137;;
+    code*) exit "${DIE#code}";;
+    stall) sleep 3; exit 1;;
   esac
   exit 1
 }
@@ -95,6 +97,7 @@ C_MODES_FAIL = ["fail_before", "fail_after_partial", "fail_after_complete", "no_
                 "wipe_outdir"]
 NEAR_COPIES = ["identical", "crlf", "cr", "bom", "trailing_newline", "truncated", "latin1", "upper_first"]
 DIE_MODES = ["exit1", "exit77", "exit139", "exit255", "segv", "kill"]
+EXIT_CODES = list(range(1, 256))
 DUCK_BAD = ["ret_str", "ret_list", "ret_none", "ret_missing_path", "raise_after_output", "raise_before_output",
             "raise_after_wiping_outdir"]
 E_EXCS = ["InjectedFault", "MemoryError", "KeyboardInterrupt", "OSError"]
@@ -153,7 +156,10 @@ def gen_fault(rng, kind: str, allow_e3_figure: bool, allow_e3_group: bool) -> di
     if r2 < 0.25:
         return {"kind": "V", "mode": rng.choice(V_MODES_FAIL)}
     if r2 < 0.7:
-        return {"kind": "P", "mode": rng.choice(C_MODES_FAIL), "die": rng.choice(DIE_MODES)}
+        die = rng.choice(DIE_MODES) if rng.random() < 0.5 else f"code{rng.choice(EXIT_CODES)}"
+        if rng.random() < 0.03:
+            die = "stall"  # the process hangs after (partial) output; only meaningful if the converter has a time limit
+        return {"kind": "P", "mode": rng.choice(C_MODES_FAIL), "die": die}
     return {"kind": "M", "mode": rng.choice(DUCK_BAD)}
 
 
@@ -660,6 +666,15 @@ def _exec_faults(plan, sb, rtflite, conv_mod, arg) -> dict:
                     kwargs["converter"] = duck
             except BaseException as e:  # noqa: BLE001
                 construct_error = type(e).__name__
+        if fk == "P" and fault.get("die") == "stall" and kwargs.get("converter") is not None:
+            # a hung process only "fails" if someone is watching the clock: a converter that exposes a numeric
+            # time limit gets a short one (the pinned converter has none and simply waits for the exit status)
+            for attr in ("timeout", "time_limit", "conversion_timeout"):
+                if isinstance(getattr(kwargs["converter"], attr, None), (int, float)):
+                    try:
+                        setattr(kwargs["converter"], attr, 1.0)
+                    except Exception:  # noqa: BLE001
+                        pass
         # --- E3 natural failures ----------------------------------------------
         undo = []
         t_fired = [0]
@@ -1301,6 +1316,22 @@ def matrix_jobs(root: int, docs: list) -> list:
               {"pre": "empty", "missing_parents": 0},
               {"pre": "absent", "missing_parents": 2}, {"pre": "earlier", "missing_parents": 0}]
     r = docs[0]
+    # every exit status a failing converter process can end with, after it has written complete / partial output
+    for code in EXIT_CODES:
+        for mode, kind in (("fail_after_complete", "write_pdf"), ("fail_after_partial", "write_docx")):
+            tgt = {"name": "e" + SUFFIX[kind], "style": "str", "pre": "file", "missing_parents": 0}
+            jobs.append({"idx": idx, "plan": {"recipes": [r], "ops": [
+                {"kind": kind, "doc": 0, "target": tgt, "fault": {"kind": "P", "mode": mode, "die": f"code{code}"},
+                 "converter": "explicit", "res": 0, "stray": False, "id": 0}], "xdev": False, "recovery": False},
+                "site_job": None})
+            idx += 1
+    for kind in ("write_docx", "write_html", "write_pdf"):
+        tgt = {"name": "s" + SUFFIX[kind], "style": "str", "pre": "file", "missing_parents": 0}
+        jobs.append({"idx": idx, "plan": {"recipes": [r], "ops": [
+            {"kind": kind, "doc": 0, "target": tgt, "fault": {"kind": "P", "mode": "fail_after_partial", "die": "stall"},
+             "converter": "explicit", "res": 0, "stray": False, "id": 0}], "xdev": False, "recovery": True},
+            "site_job": None})
+        idx += 1
     for kind in ("write_docx", "write_html", "write_pdf"):
         for f in faults:
             for st in states:
